@@ -30,11 +30,11 @@ theorem writeObj_stream_eq (tr : Dict) (c : Bytes) :
   simp [writeObj]
 
 /-- `indirect_object` + `stream` read the written cross-reference stream object back -/
-theorem pIndirect_xrefStream (len : ObjId → Option Int) (base : Nat) (N : Nat) (tr : Dict) (content tail : Bytes) (hN : N ≤ U32_MAX)
-    (hL : tr.get LENGTH = some (.int content.length))
-    (hD : DictReadsBack tr (STREAM_KW ++ (content ++ (ENDSTREAM_KW ++ 32 :: (ENDOBJ_TAIL ++ tail))))) :
+theorem pIndirect_xrefStreamN (len : ObjId → Option Int) (base : Nat) (N : Nat) (tr tr' : Dict) (content tail : Bytes) (hN : N ≤ U32_MAX)
+    (hL : tr'.get LENGTH = some (.int content.length))
+    (hD : DictReadsBackN tr tr' (STREAM_KW ++ (content ++ (ENDSTREAM_KW ++ 32 :: (ENDOBJ_TAIL ++ tail))))) :
     pIndirect len none base (writeIndirect N 0 (.stream tr content) ++ tail)
-      = some ((N, 0), .plain (.stream (tr.set LENGTH (.int content.length)) content)) := by
+      = some ((N, 0), .plain (.stream (tr'.set LENGTH (.int content.length)) content)) := by
   obtain ⟨a, as, hda, ha⟩ := natDigits_head N
   obtain ⟨ha1, ha2, _⟩ := digit_not_ws a ha
   obtain ⟨w, hw⟩ := writeObj_dict_cons tr
@@ -62,8 +62,8 @@ theorem pIndirect_xrefStream (len : ObjId → Option Int) (base : Nat) (N : Nat)
     rw [hw]; exact space_ws_stop 10 60 _ (by decide) (by decide) (by decide)
   -- the stream
   have hst : pStream len (writeObj (.dict tr) ++ restS)
-      = .ok (.plain (.stream (tr.set LENGTH (.int content.length)) content)) (32 :: (ENDOBJ_TAIL ++ tail)) := by
-    unfold DictReadsBack at hD
+      = .ok (.plain (.stream (tr'.set LENGTH (.int content.length)) content)) (32 :: (ENDOBJ_TAIL ++ tail)) := by
+    unfold DictReadsBackN at hD
     have s5 : space restS = restS := by
       rw [← hrs]; simp only [STREAM_KW, List.cons_append]
       exact space_stop 115 _ (by decide) (by decide)
@@ -84,11 +84,11 @@ theorem pIndirect_xrefStream (len : ObjId → Option Int) (base : Nat) (N : Nat)
   simp
 
 /-- `xref_and_trailer` on a written cross-reference stream object = `decode_xref_stream` of it -/
-theorem xrefAndTrailer_xrefStream (N : Nat) (tr : Dict) (content tail : Bytes) (hN : N ≤ U32_MAX)
-    (hL : tr.get LENGTH = some (.int content.length))
-    (hD : DictReadsBack tr (STREAM_KW ++ (content ++ (ENDSTREAM_KW ++ 32 :: (ENDOBJ_TAIL ++ tail))))) :
+theorem xrefAndTrailer_xrefStreamN (N : Nat) (tr tr' : Dict) (content tail : Bytes) (hN : N ≤ U32_MAX)
+    (hL : tr'.get LENGTH = some (.int content.length))
+    (hD : DictReadsBackN tr tr' (STREAM_KW ++ (content ++ (ENDSTREAM_KW ++ 32 :: (ENDOBJ_TAIL ++ tail))))) :
     xrefAndTrailer (writeIndirect N 0 (.stream tr content) ++ tail)
-      = decodeXrefStream (tr.set LENGTH (.int content.length)) content := by
+      = decodeXrefStream (tr'.set LENGTH (.int content.length)) content := by
   have hx : pXref (writeIndirect N 0 (.stream tr content) ++ tail) = .ok none := by
     obtain ⟨a, as, hda, ha⟩ := natDigits_head N
     obtain ⟨_, _, ha3⟩ := digit_not_ws a ha
@@ -97,7 +97,21 @@ theorem xrefAndTrailer_xrefStream (N : Nat) (tr : Dict) (content tail : Bytes) (
     simp [writeIndirect, hda, pXref.XREF_WORD, tag, ha3']
   unfold xrefAndTrailer
   rw [hx]
-  simp only [xrefAndTrailer.xrefStreamAlt, pIndirect_xrefStream (fun _ => none) 0 N tr content tail hN hL hD]
+  simp only [xrefAndTrailer.xrefStreamAlt, pIndirect_xrefStreamN (fun _ => none) 0 N tr tr' content tail hN hL hD]
+
+theorem pIndirect_xrefStream (len : ObjId → Option Int) (base : Nat) (N : Nat) (tr : Dict) (content tail : Bytes) (hN : N ≤ U32_MAX)
+    (hL : tr.get LENGTH = some (.int content.length))
+    (hD : DictReadsBack tr (STREAM_KW ++ (content ++ (ENDSTREAM_KW ++ 32 :: (ENDOBJ_TAIL ++ tail))))) :
+    pIndirect len none base (writeIndirect N 0 (.stream tr content) ++ tail)
+      = some ((N, 0), .plain (.stream (tr.set LENGTH (.int content.length)) content)) :=
+  pIndirect_xrefStreamN len base N tr tr content tail hN hL hD
+
+theorem xrefAndTrailer_xrefStream (N : Nat) (tr : Dict) (content tail : Bytes) (hN : N ≤ U32_MAX)
+    (hL : tr.get LENGTH = some (.int content.length))
+    (hD : DictReadsBack tr (STREAM_KW ++ (content ++ (ENDSTREAM_KW ++ 32 :: (ENDOBJ_TAIL ++ tail))))) :
+    xrefAndTrailer (writeIndirect N 0 (.stream tr content) ++ tail)
+      = decodeXrefStream (tr.set LENGTH (.int content.length)) content :=
+  xrefAndTrailer_xrefStreamN N tr tr content tail hN hL hD
 
 /-! ### the dictionary `create_xref_steam` builds -/
 
